@@ -164,6 +164,15 @@ func (e *Engine) refine(st *State, cv AbsVal, cond ssa.Value, truth bool) {
 				st.Lmin, st.Lmax = lo, hi
 				xv.mlo, xv.mhi = lo, hi
 				st.setv(cv.cmpX, xv)
+			} else {
+				// an older mark (or mark arithmetic): the comparison bounds its value only
+				lo, hi := refineInterval(xv.mlo, xv.mhi, cv.cmpOp, int(cv.cmpK), truth)
+				if lo > hi {
+					st.dead = true
+					return
+				}
+				xv.mlo, xv.mhi = lo, hi
+				st.setv(cv.cmpX, xv)
 			}
 		case kLenOf:
 			if sv, ok := st.getv(xv.lenOf); ok && sv.k == vSlice {
@@ -835,8 +844,22 @@ func (e *Engine) atCall(fi *fnInfo, st *State, in *ssa.Call, callee *ssa.Functio
 		e.assume = append(e.assume, "A-TMPL: template delimiters passed to NewTemplateLexer contain no NUL byte (the six exported dialects are checked by T-TMPL)")
 		t, f := st.clone(), st
 		t.atLen["len("+arg.atom+")"] = true
+		if pz, known := st.heap["pos:len("+arg.atom+")"].constInt(); known && pz == 1 {
+			// a non-empty delimiter (without NUL, A-TMPL) matched: at least one input byte follows
+			if t.atEOF && t.E == 0 {
+				t.dead = true
+			} else if t.E < 1 {
+				t.E = 1
+			}
+			if !t.dead {
+				t.refineByte(0, bsOf(0).not())
+			}
+		}
 		t.setv(in, boolVal(true))
 		f.setv(in, boolVal(false))
+		if t.dead {
+			return []*State{f}
+		}
 		return []*State{t, f}
 	}
 	e.undecided(st, "R-CURSOR", key+" (argument shape)", in.Pos(), "argument of the byte-sequence helper is neither a literal byte list nor a lexer field")
